@@ -254,7 +254,10 @@ class BuildIds:
     async def many(self, steps):
         return [await self.one(s) for s in steps]
 
+    substitute = staticmethod(lambda st: st)
+
     async def one(self, step):
+        step = self.substitute(step)
         path = step.getWorkspacePath()
         if step.isCheckoutStep():
             key = (path, step.getVariantId())
@@ -326,9 +329,11 @@ def check_ir(jobs, tmpdir):
     loop = asyncio.new_event_loop()
     mismatches = []
     dropped = []
+    twin_hits = [0]
     nfields = 0
     # every workspace the project assigns, by (plain) variant id
     ws_of = {}
+    same_ws = {}      # workspace -> package step instances of the project that live there (same Jenkins variant id)
     for job in jobs.values():
         for ps in job.getPackageSteps():
             pkg = ps.getPackage()
@@ -338,6 +343,9 @@ def check_ir(jobs, tmpdir):
                     for d in st.getAllDepSteps():
                         if d.isValid():
                             ws_of.setdefault(d.getVariantId(), set()).add(d.getWorkspacePath())
+                            if d.isPackageStep():
+                                same_ws.setdefault(d.getWorkspacePath(), []).append(d)
+            same_ws.setdefault(ps.getWorkspacePath(), []).append(ps)
     try:
         live_bids = BuildIds()
         for name, job in sorted(jobs.items()):
@@ -382,6 +390,17 @@ def check_ir(jobs, tmpdir):
                 else:
                     preset[p] = loop.run_until_complete(live_bids.one(lazy(live_deps[p])))
             node_bids = BuildIds({p: b for p, b in preset.items() if b is not None})
+            # checkout/build steps of different packages of the job may share one variant id (same script, environment,
+            # tools and inputs): the specification keeps one entry per variant id and the builder runs it once, in
+            # one workspace.  Attributes outside the variant id (deterministic flag, job server, ...) are then those
+            # of one of these steps: the entry has to reproduce *one* step of the project with that id completely.
+            twins = {}
+            for ps in live.values():
+                pk = ps.getPackage()
+                for st in (pk.getBuildStep(), pk.getCheckoutStep()):
+                    twins.setdefault((jvid(st), st.isCheckoutStep()), []).append(st)
+            rep = {}          # (variant id, is checkout) -> the step of the project that the entry reproduces
+            todo_bid = []
             for r in roots:
                 lp = live[jvid(r).hex()]
                 pairs = [(r, lp)]
@@ -392,15 +411,42 @@ def check_ir(jobs, tmpdir):
                     va = step_view(a, True, None, a is r, ws_of)
                     vb = step_view(lazy(b), True, b, a is r, ws_of)
                     nfields += len(va)
-                    for m in diff(vb, va):
+                    ms = diff(vb, va)
+                    if ms and a is not r:
+                        for other in twins.get((jvid(b), b.isCheckoutStep()), []):
+                            if other is not b and not diff(step_view(lazy(other), True, other, False, ws_of), va):
+                                ms = []
+                                twin_hits[0] += 1
+                                rep[(jvid(b), b.isCheckoutStep())] = other
+                                break
+                    for m in ms:
                         mismatches.append("%s %s/%s %s" % (name, lp.getPackage().getName(), b.getLabel(), m))
                     if a.isValid():
-                        ba = loop.run_until_complete(node_bids.one(a))
-                        bb = loop.run_until_complete(live_bids.one(lazy(b)))
-                        nfields += 1
-                        if ba != bb:
-                            mismatches.append("%s %s/%s: Build-Id on the build node %s != in the project %s"
-                                              % (name, lp.getPackage().getName(), b.getLabel(), ba.hex()[:12], bb.hex()[:12]))
+                        todo_bid.append((a, b, lp))
+            # Build-Ids: the project's value, computed with the steps that the entries reproduce
+            proj_bids = live_bids
+            if rep:
+                proj_bids = BuildIds()
+                proj_bids.substitute = lambda st: (lazy(rep[(jvid(st), st.isCheckoutStep())])
+                                                   if not st.isPackageStep() and (jvid(st), st.isCheckoutStep()) in rep else st)
+            for (a, b, lp) in todo_bid:
+                ba = loop.run_until_complete(node_bids.one(a))
+                bb = loop.run_until_complete(proj_bids.one(lazy(b)))
+                nfields += 1
+                if ba != bb and b.isPackageStep():
+                    # package instances with one Jenkins variant id share the workspace and (in the builder's cache,
+                    # which is indexed by workspace) the Build-Id of whichever instance is asked first; they may differ
+                    # in attributes outside the variant id (relocatable, fingerprint script)
+                    for other in same_ws.get(b.getWorkspacePath(), []):
+                        fresh = BuildIds()
+                        fresh.substitute = proj_bids.substitute
+                        if loop.run_until_complete(fresh.one(lazy(other))) == ba:
+                            bb = ba
+                            twin_hits[0] += 1
+                            break
+                if ba != bb:
+                    mismatches.append("%s %s/%s: Build-Id on the build node %s != in the project %s"
+                                      % (name, lp.getPackage().getName(), b.getLabel(), ba.hex(), bb.hex()))
             # partially dumped dependencies: what the builder reads from them
             for d in deps:
                 l = live_deps.get(d.getWorkspacePath())
@@ -412,7 +458,7 @@ def check_ir(jobs, tmpdir):
                     mismatches.append("%s dep %s %s" % (name, l.getPackage().getName(), m))
     finally:
         loop.close()
-    return {"fields": nfields, "mismatch": mismatches[:20], "dropped": dropped[:5]}
+    return {"fields": nfields, "mismatch": mismatches[:20], "dropped": dropped[:5], "twins": twin_hits[0]}
 
 
 # ----------------------------------------------------------------------------- the property oracle
@@ -485,6 +531,35 @@ def oracle(jobs, order_error, graph, steps, names):
         out.append({"what": "the recipes parse (acyclic package graph) but the Jenkins jobs are cyclic: %s"
                             % (" -> ".join(cyc) if cyc else order_error), "sig": "job-graph-cyclic"})
     return out
+
+
+def first_instance_job_graph_cyclic(jobs, graph):
+    """the job graph with the dependencies of the first package instance per Jenkins variant id (harness traversal,
+    the order of sanitize) instead of the recorded ones"""
+    nodes = graph["nodes"]
+    vid2job = {}
+    for name, job in jobs.items():
+        for ps in job.getPackageSteps():
+            vid2job[jvid(ps).hex()] = name
+    edges = {}
+    for n in nodes:
+        j = vid2job.get(n["vid"])
+        if j is None:
+            continue
+        for d in n["vdeps"]:
+            k = vid2job.get(nodes[d]["vid"])
+            if k is not None and k != j:
+                edges.setdefault(j, set()).add(k)
+    color = {}
+
+    def dfs(a):
+        color[a] = 1
+        for b in edges.get(a, ()):
+            if color.get(b) == 1 or (b not in color and dfs(b)):
+                return True
+        color[a] = 2
+        return False
+    return any(dfs(a) for a in list(edges) if a not in color)
 
 
 def _natural_names(nodes, job):
@@ -656,7 +731,18 @@ def run_case(case, tmpdir):
             # which instance supplies the recorded dependencies is then an accident of the traversal order
             res["oracle_skipped"] = "instances-differ"
             if order_error:
-                viol.append({"what": "Jenkins jobs are cyclic: " + order_error, "sig": "job-graph-cyclic"})
+                # Is the cycle made of dependencies that only *another* instance of a shared variant id has (the job
+                # records those of the instance _genJenkinsJobs met first, sanitize checked those of its own first
+                # instance)?  Then it is the same defect as the KeyError; a cycle that is already there with the
+                # dependencies of sanitize's instances is something else.
+                if first_instance_job_graph_cyclic(jobs, graph):
+                    viol.append({"what": "Jenkins jobs are cyclic: " + order_error, "sig": "job-graph-cyclic"})
+                else:
+                    viol.append({"what": "Jenkins jobs are cyclic: %s [package instances %s and %s have the same Jenkins variant-id "
+                                         "but dependencies with different Jenkins variant-ids (sandbox); the cycle consists of "
+                                         "dependencies that sanitize's instance does not have]"
+                                         % (order_error, differ[0]["a"], differ[0]["b"]),
+                                 "sig": "same-jenkins-variant-id-different-dependencies"})
         else:
             viol.extend(oracle(jobs, order_error, graph, steps, names))
         if res.get("order") == "ok" and not res.get("order_valid"):
